@@ -46,6 +46,12 @@ def sem_fixed():
         Variant("FxN", "newtype", [Field(None, user(s1), inline=True)])]))
     add(Item("FxIntInline", "FxIntInline", "enum", tag="fxi", variants=[
         Variant("FxM", "newtype", [Field(None, user(s1), inline=True)]), Variant("FxO", "unit")]))
+    # internally tagged enum whose struct variants are renamed to strings that need escaping
+    add(Item("FxQuotedVariants", "FxQuotedVariants", "enum", tag="fxkind", variants=[
+        Variant("FxSay", "struct", [Field("fx_text", prim("String"))], rename='say "hi"'),
+        Variant("FxBack", "struct", [Field("fx_n", prim("i32"))], rename="back\\slash"),
+        Variant("FxUnitQ", "unit", rename='a "unit"'),
+        Variant("FxPlainV", "struct", [Field("fx_p", prim("bool"))])]))
     # rename_all_fields with a struct variant that has no fields (serde accepts it)
     add(Item("FxRenameAllFieldsEmpty", "FxRenameAllFieldsEmpty", "enum", rename_all_fields="camelCase", variants=[
         Variant("FxEmptyV", "struct", []), Variant("FxFullV", "struct", [Field("fx_x_y", prim("i32"))])]))
@@ -85,6 +91,13 @@ def graph_fixed():
         Variant("FgS", "struct", [Field("fg_s1", prim("bool"))])]))
     add(Item("FgInlineIntMap", "FgInlineIntMap", "named", fields=[Field("fg_p", prim("i32")), Field("fg_e", user(e2), inline=True)],
              export_to="fgshared/x.ts"))
+    # a file importing from a file of the same name in a directory below it
+    low = add(Item("FgTypesLow", "FgTypesLow", "named", fields=[Field("fg_low", prim("u8"))], export_to="fgapi/v2/types.ts"))
+    add(Item("FgTypesTop", "FgTypesTop", "named", fields=[Field("fg_top", user(low)), Field("fg_more", Ty("vec", args=[user(low)]))],
+             export_to="fgapi/types.ts"))
+    # ... and from a file of the same name next to it
+    side = add(Item("FgTypesSide", "FgTypesSide", "named", fields=[Field("fg_side", prim("bool"))], export_to="fgapi2/types.ts"))
+    add(Item("FgTypesUser", "FgTypesUser", "named", fields=[Field("fg_s", user(side)), Field("fg_l", user(low))], export_to="fgapi/v2/x/types.ts"))
     g.items = items
     g.make_entries(per_generic=1)
     return g
